@@ -79,6 +79,19 @@ func runC07(x *Ctx) {
 			case decodesWith(r, "token/invocation", "FromIPLD", "arg0"):
 				nI++
 			default:
+				if tbl := tagDispatchTable(x, r, "call[token/internal/envelope.FindTag](arg0)#0"); tbl != nil {
+					for _, fn := range tbl {
+						switch fn {
+						case "token/delegation.FromIPLD":
+							nD++
+						case "token/invocation.FromIPLD":
+							nI++
+						default:
+							other += fn + " "
+						}
+					}
+					continue
+				}
 				other += r.String() + " "
 			}
 		}
@@ -343,7 +356,7 @@ func codecPairing(x *Ctx) {
 			}
 		}
 		n++
-		if refs == 0 {
+		if refs == 0 && f.Parent() == nil {
 			bad += x.pos(f) + ": " + name + " references no codec function and no *DagCbor*/*DagJson* function\n"
 		}
 	}
